@@ -31,7 +31,10 @@ def showPlan : Plan → String
   | .refuse .enableTls => "refuse(enableTls)"
   | .tls c h s =>
     let m := match c.minProto with | some v => toString v | none => "0"
-    s!"tls(role={showRole c.role},verify={showVerify c.verify},min={m},trust={showTrust c.trust},cert={bit (c.certLoaded && c.keyLoaded)},host={h.getD "-"},sni={s.getD "-"})"
+    -- `hs=(…)`: what is in force on the SSL object when its handshake starts (the harness reads it back from the object): the model has no
+    -- per-session override, so it is the context's mode and depth, the bound host, and host flags 0 (the library default name policy)
+    let d := match c.depth with | some v => toString v | none => "-1"
+    s!"tls(role={showRole c.role},verify={showVerify c.verify},min={m},trust={showTrust c.trust},cert={bit (c.certLoaded && c.keyLoaded)},host={h.getD "-"},sni={s.getD "-"},hs=(verify={showVerify c.verify},depth={d},hostflags=0,host={h.getD "-"}))"
 
 def showVer (v : Option Int) : String :=
   match v with
@@ -51,7 +54,8 @@ def parseAnchors : String → Option Anchors
   | "badfile" => some .empty | "missing" => some .empty | "path" => some .empty | _ => none
 def parseSCert : String → Option CertProps
   | "valid" => some CertKind.valid.props | "self" => some CertKind.selfSigned.props | "expired" => some CertKind.expired.props
-  | "wrongname" => some CertKind.wrongName.props | "mismatch" => some CertKind.keyMismatch.props | _ => none
+  | "wrongname" => some CertKind.wrongName.props | "mismatch" => some CertKind.keyMismatch.props
+  | "sanother" => some CertKind.sanOther.props | "cnonly" => some CertKind.cnOnly.props | _ => none
 def parseCCert : String → Option (Option CertProps)
   | "none" => some CCertKind.none.props | "cvalid" => some CCertKind.valid.props
   | "cuntrusted" => some CCertKind.untrusted.props | "cexpired" => some CCertKind.expired.props | _ => none
@@ -64,19 +68,22 @@ def parseOwn : String → Option (Bool × Files)
   | "valid" => some (true, CertKind.valid.files) | "self" => some (true, CertKind.selfSigned.files)
   | "expired" => some (true, CertKind.expired.files) | "wrongname" => some (true, CertKind.wrongName.files)
   | "mismatch" => some (true, CertKind.keyMismatch.files) | "nocert" => some (false, {})
+  | "sanother" => some (true, CertKind.sanOther.files) | "cnonly" => some (true, CertKind.cnOnly.files)
   | "unreadable" => some (true, { certReadable := false, keyReadable := false, certLoads := false, keyLoads := false }) | _ => none
 
 def caSet (t : String) : Bool := t == "right" || t == "wrong" || t == "badfile" || t == "missing"
 def caLoads (t : String) : Bool := !(t == "badfile" || t == "missing")
 
-def certRow (n : String) (c : CertProps) : String :=
+/-- `ipSan`: the factory gives the certificate an iPAddress SAN for 127.0.0.1 exactly when it gives it a dNSName SAN for the host -/
+def certRow (n : String) (c : CertProps) (ipSan : Bool := true) : String :=
   let nm := c.names.contains theHost
-  s!"{n}:right={bit (chains c .right)},wrong={bit (chains c .wrong)},time={bit c.inTime},name={bit nm},ip={bit nm},key={bit c.possession}"
+  s!"{n}:right={bit (chains c .right)},wrong={bit (chains c .wrong)},time={bit c.inTime},name={bit nm},ip={bit (nm && ipSan)},key={bit c.possession}"
 
 def certTable : String :=
   " ".intercalate
     ([("valid", CertKind.valid.props), ("self", CertKind.selfSigned.props), ("expired", CertKind.expired.props),
-      ("wrongname", CertKind.wrongName.props), ("mismatch", CertKind.keyMismatch.props)].map (fun (n, c) => certRow n c) ++
+      ("wrongname", CertKind.wrongName.props), ("mismatch", CertKind.keyMismatch.props), ("sanother", CertKind.sanOther.props)].map (fun (n, c) => certRow n c) ++
+     [certRow "cnonly" CertKind.cnOnly.props false] ++
      [("cvalid", CCertKind.valid.props), ("cuntrusted", CCertKind.untrusted.props), ("cexpired", CCertKind.expired.props)].filterMap
        (fun (n, c) => c.map (certRow n)))
 
